@@ -2912,21 +2912,25 @@ impl Compiler {
             non_local_access,
         );
 
-        let function_size_ip = if let Some(result_register) = result.register {
-            self.push_op(
-                Function,
-                &[
-                    result_register,
-                    arg_count,
-                    optional_args.len() as u8,
-                    captures.len() as u8,
-                    flags.into(),
-                ],
-            );
-            Some(self.push_offset_placeholder())
-        } else {
-            None
+        // If the function's result is unused then it still needs to be placed in a temporary
+        // register, otherwise the function's body would be emitted without its `Function` header
+        // and would get executed inline.
+        let (result_register, result_is_temporary) = match result.register {
+            Some(register) => (register, false),
+            None => (self.push_register()?, true),
         };
+
+        self.push_op(
+            Function,
+            &[
+                result_register,
+                arg_count,
+                optional_args.len() as u8,
+                captures.len() as u8,
+                flags.into(),
+            ],
+        );
+        let function_size_ip = self.push_offset_placeholder();
 
         let local_count = match u8::try_from(function.local_count) {
             Ok(x) => x,
@@ -2957,51 +2961,46 @@ impl Compiler {
             ctx,
         )?;
 
-        if let Some(ip) = function_size_ip {
-            self.update_offset_placeholder(ip)?;
+        self.update_offset_placeholder(function_size_ip)?;
+
+        for (i, expression) in optional_args.iter().enumerate() {
+            let capture_register = self.push_register()?;
+            self.compile_node(*expression, ctx.with_fixed_register(capture_register))?;
+            self.push_op(Capture, &[result_register, i as u8, capture_register]);
+            self.pop_register()?;
         }
 
-        if let Some(result_register) = result.register {
-            for (i, expression) in optional_args.iter().enumerate() {
-                let capture_register = self.push_register()?;
-                self.compile_node(*expression, ctx.with_fixed_register(capture_register))?;
-                self.push_op(Capture, &[result_register, i as u8, capture_register]);
-                self.pop_register()?;
-            }
-
-            let optional_arg_count = optional_args.len() as u8;
-            for (i, capture) in captures.iter().enumerate() {
-                let index = optional_arg_count + i as u8;
-                match self
-                    .frame()
-                    .get_local_assigned_or_reserved_register(*capture)
-                {
-                    AssignedOrReserved::Assigned(assigned_register) => {
-                        self.push_op(Capture, &[result_register, index, assigned_register]);
-                    }
-                    AssignedOrReserved::Reserved(reserved_register) => {
-                        let capture_span = self.span();
-                        self.frame_mut()
-                            .defer_op_until_register_is_committed(
-                                reserved_register,
-                                vec![Capture as u8, result_register, index, reserved_register],
-                                capture_span,
-                            )
-                            .map_err(|e| self.make_error(e))?;
-                    }
-                    AssignedOrReserved::Unassigned => {
-                        let capture_register = self.push_register()?;
-                        self.compile_load_non_local(capture_register, *capture);
-                        self.push_op(Capture, &[result_register, index, capture_register]);
-                        self.pop_register()?;
-                    }
+        let optional_arg_count = optional_args.len() as u8;
+        for (i, capture) in captures.iter().enumerate() {
+            let index = optional_arg_count + i as u8;
+            match self
+                .frame()
+                .get_local_assigned_or_reserved_register(*capture)
+            {
+                AssignedOrReserved::Assigned(assigned_register) => {
+                    self.push_op(Capture, &[result_register, index, assigned_register]);
+                }
+                AssignedOrReserved::Reserved(reserved_register) => {
+                    let capture_span = self.span();
+                    self.frame_mut()
+                        .defer_op_until_register_is_committed(
+                            reserved_register,
+                            vec![Capture as u8, result_register, index, reserved_register],
+                            capture_span,
+                        )
+                        .map_err(|e| self.make_error(e))?;
+                }
+                AssignedOrReserved::Unassigned => {
+                    let capture_register = self.push_register()?;
+                    self.compile_load_non_local(capture_register, *capture);
+                    self.push_op(Capture, &[result_register, index, capture_register]);
+                    self.pop_register()?;
                 }
             }
-        } else {
-            // The function is unused, but compile the optional arg values to check for errors
-            for expression in optional_args.iter() {
-                self.compile_node(*expression, ctx.with_any_register())?;
-            }
+        }
+
+        if result_is_temporary {
+            self.pop_register()?;
         }
 
         Ok(result)
